@@ -11,14 +11,28 @@ early return vs nested if, guard moved into a must-called helper).
 import re
 from fractions import Fraction
 
-from .cfg import FnView, render, strip_ref, typed_name, ok_discr, POLICY_ERROR_FNS
+from .cfg import FnView, render, strip_ref, peel, typed_name, ok_discr, POLICY_ERROR_FNS
 
 # ------------------------------------------------------------------ linear forms
 
 
+ARITH = ("int", "ovf", "+", "-", "*")
+
+
+def strip_r(e):
+    while e[0] == "ref":
+        e = e[1]
+    return e
+
+
 def linear(e):
     """expr -> (coeffs: {sym: int}, const: int).  Non-linear sub-terms become opaque symbols."""
-    e = strip_ref(e)
+    e = strip_r(e)
+    if e[0] == "let":
+        inner = strip_r(e[2])
+        if inner[0] in ARITH:
+            return linear(inner)
+        return {sym(e): 1}, 0
     k = e[0]
     if k == "int":
         return {}, e[1]
@@ -56,7 +70,10 @@ def _add(a, b, sign):
 
 def sym(e):
     """symbol identity: (full rendering, typed name or None)"""
-    e = strip_ref(e)
+    e = strip_r(e)
+    if e[0] == "let":
+        return (e[1], typed_name(e[2]))
+    e = peel(e)
     return (render(e), typed_name(e))
 
 
@@ -115,7 +132,9 @@ def negate(atom):
 
 def bool_atom(e, polarity=True):
     """atom for a boolean expression being `polarity`"""
-    e = strip_ref(e)
+    e = strip_r(e)
+    if e[0] == "let" and strip_r(e[2])[0] in ("not", "cmp", "int"):
+        e = strip_r(e[2])
     if e[0] == "not":
         return bool_atom(e[1], not polarity)
     if e[0] == "cmp":
@@ -312,7 +331,7 @@ def show(atom):
 
 
 # ------------------------------------------------------------------ spec parsing
-_TOK = re.compile(r"\s*(>=|<=|==|!=|>|<|\+|-|\*|\(|\)|!|[A-Za-z_][A-Za-z0-9_:.\[\]']*(?:\([^()]*\))?\??|\d+)")
+_TOK = re.compile(r"\s*(`[^`]*`|>=|<=|==|!=|>|<|\+|-|\*|\(|\)|!|[A-Za-z_][A-Za-z0-9_:.\[\]']*(?:\([^()]*\))?\??|\d+)")
 
 
 def parse_atom(text):
@@ -324,7 +343,7 @@ def parse_atom(text):
         if idx is None:
             idx = int(mv.group(3)[1:])
         return ("notvariant" if mv.group(2) else "variant", (mv.group(1).strip(), "spec"), idx)
-    m = re.match(r"^(.*?)(>=|<=|==|!=|>|<)(.*)$", text)
+    m = re.match(r"^((?:`[^`]*`|[^`<>=!])*?)(>=|<=|==|!=|>|<)(.*)$", text)
     if not m:
         neg = text.startswith("!")
         name = text.lstrip("!").strip()
@@ -357,7 +376,7 @@ def _parse_sum(s):
 
 
 def _spec_sym(name):
-    return ("specsym", name)
+    return ("specsym", name.strip("`"))
 
 
 # make `sym()` understand spec symbols
@@ -365,7 +384,7 @@ _old_sym = sym
 
 
 def sym(e):  # noqa: F811
-    e = strip_ref(e)
+    e = strip_r(e)
     if e[0] == "specsym":
         return (e[1], "spec")
     return _old_sym(e)
